@@ -20,7 +20,7 @@ package ja3
 //@ globalinv [C01:separators] sepValueByte == 45 && sepFieldByte == 44
 
 //@ func Bare :: hello -> result
-//@   props C01,C10
+//@   props C01,C10,C06
 //@   requires hello != nil
 //@   assigns nothing
 //@   ensures [C01:ja3-string] result == ja3str(hello)
@@ -38,12 +38,12 @@ package ja3
 //@   loop 4 invariant [C01:points] buffer == dec(hello.HandshakeVersion) ++ "," ++ joinK(hello.CipherSuites, len(hello.CipherSuites)) ++ "," ++ joinK(hello.AllExtensions, len(hello.AllExtensions)) ++ "," ++ joinK(hello.SupportedGroups, len(hello.SupportedGroups)) ++ "," ++ dashIf(joinA(hello.SupportedPoints, rangeindex+1))
 
 //@ func BareToDigestHex :: bare -> result
-//@   props C01
+//@   props C01,C06
 //@   assigns nothing
 //@   ensures [C01:md5-hex] result == hexstr(md5sum(bare))
 
 //@ func DigestHex :: hello -> result
-//@   props C01
+//@   props C01,C06
 //@   requires hello != nil
 //@   assigns nothing
 //@   ensures [C01:digest-of-ja3] result == hexstr(md5sum(ja3str(hello)))
